@@ -104,7 +104,7 @@ impl Property for C01 {
             .boxed()
     }
     fn cases(&self, tier: Tier) -> u64 {
-        tier.pick(700_000, 35_000_000)
+        tier.pick(3_000_000, 40_000_000)
     }
     fn enumerate(&self, tier: Tier, shard: usize, nshards: usize, emit: &mut Emit<Case>) {
         let top = tier.pick(20_000u64, 1_000_000u64);
